@@ -52,6 +52,11 @@ def stages(tier, rng, only=None):
         out.append(ac.stage("grid4x2", PID, lambda: _cases(grids.datasets(4, 2), sch, 20), _nt))
         out.append(ac.stage("random", PID, lambda: _cases([ac.random_dataset(rng, 7, 5) for _ in range(1500)], sch, 1),
                             _nt))
+    hist = g[::4] + [ac.cyclic_dataset(rng, 3, 5, incomplete=True) for _ in range(60 if tier == "quick" else 600)]
+    out.append(ac.stage("reuse_after_mutation", PID, lambda: ac.reuse_mutate_cases(hist, algorun.ALL_CONFIGS, sch, rng),
+                        _nt))
+    out.append(ac.stage("reuse_other_dataset", PID, lambda: ac.reuse_other_cases(hist, algorun.ALL_CONFIGS, sch, rng),
+                        _nt))
     out.append(ac.stage("cycles", PID, lambda: _cases(
         [ac.cyclic_dataset(rng, 3, 5, incomplete=k % 3 != 0) for k in range(150 if tier == "quick" else 1500)]
         + [ac.two_cycles(rng) for _ in range(6 if tier == "quick" else 40)]
